@@ -199,6 +199,10 @@ pub enum DKind {
 	RetryNewRef,
 	RefNew,
 	RefTryNew,
+	/// `.into_iter().collect()` into a collection over Vec (FromIterator)
+	BoxedFromIter,
+	OwnedFromIter,
+	RetryFromIter,
 	/// try_new on (owned lock, &m, &m): rejected, the owned lock must still be dropped once
 	BoxedRejected,
 	RetryRejected,
@@ -211,6 +215,11 @@ pub enum DEnd {
 	IntoInner,
 	/// get_mut / child_mut, then drop
 	GetMutThenDrop,
+	/// `into_iter()` over the collection, every lock taken apart with into_inner
+	/// (Vec collections only; otherwise like IntoInner)
+	IntoIter,
+	/// `extend` with two more locks first (Owned / Retrying over Vec only), then into_inner
+	ExtendThenIntoInner,
 }
 
 #[derive(Clone, Debug, serde::Serialize, serde::Deserialize)]
@@ -257,15 +266,20 @@ pub fn gen_plan(src: &mut Src<'_>) -> DPlan {
 		DKind::RefTryNew,
 		DKind::BoxedRejected,
 		DKind::RetryRejected,
+		DKind::BoxedFromIter,
+		DKind::OwnedFromIter,
+		DKind::RetryFromIter,
 	];
 	let kind = kinds[src.pick(kinds.len())];
 	let nw = src.pick(4);
 	let writes = (0..nw).map(|_| (src.pick(n.max(1)), 1 + src.pick(200) as u32, src.chance(128))).collect();
-	let end = match src.pick(4) {
+	let end = match src.pick(6) {
 		0 => DEnd::Drop,
 		1 => DEnd::IntoChild,
 		2 => DEnd::IntoInner,
-		_ => DEnd::GetMutThenDrop,
+		3 => DEnd::GetMutThenDrop,
+		4 => DEnd::IntoIter,
+		_ => DEnd::ExtendThenIntoInner,
 	};
 	DPlan { leaf, cont, n, kind, writes, end, poison: src.chance(60) }
 }
@@ -369,7 +383,7 @@ where
 						let got: Vec<(u32, u32)> = FlatV::flat(LockableIntoInner::into_inner(coll)).into_iter().map(|x| { let t = L::from_inner(x); (t.id, t.ver) }).collect();
 						check_values("into_inner()", plan, &got, &expect, &mut findings);
 					}
-					DEnd::GetMutThenDrop => drop(coll),
+					DEnd::GetMutThenDrop | DEnd::IntoIter | DEnd::ExtendThenIntoInner => drop(coll),
 				}
 			}};
 		}
@@ -458,6 +472,7 @@ where
 					check_values("container.into_inner()", plan, &got, &expect, &mut findings);
 				}
 			}
+			DKind::BoxedFromIter | DKind::OwnedFromIter | DKind::RetryFromIter => unreachable!("handled by run_vec_scenario"),
 			DKind::BoxedRejected | DKind::RetryRejected => {
 				// the input owns `c` and one more tracked lock, next to a duplicated reference
 				let dup = mk(1000);
@@ -525,7 +540,102 @@ macro_rules! dispatch_leaf_cont {
 	};
 }
 
+/// The Vec-only construction / destruction paths: FromIterator, IntoIterator, Extend.
+fn run_vec_scenario<L: DLeaf>(plan: &DPlan) -> DOutcome
+where
+	for<'a> <L as Lockable>::DataMut<'a>: Sized,
+{
+	let table = Arc::new(DropTable::default());
+	let mut findings = Vec::new();
+	let mut labels = vec![format!("c16.leaf.{}", L::NAME), "c16.cont.Vec".to_string(), format!("c16.kind.{:?}", plan.kind), format!("c16.end.{:?}", plan.end), "c16.vec_only_path".to_string()];
+	let n = plan.n;
+	let mut expect: Vec<(u32, u32)> = (0..n as u32).map(|i| (i, 0)).collect();
+	let mk = |i: u32| L::mk(Tracked { id: i, ver: 0, table: table.clone() });
+	let leaves: Vec<L> = (0..n as u32).map(mk).collect();
+	let mut key = ThreadKey::get();
+	if key.is_none() {
+		return DOutcome { findings: vec![finding("harness|no-key".into(), "no key".into())], labels };
+	}
+	let mut ids: Vec<u32> = (0..n as u32).collect();
+	match plan.kind {
+		DKind::BoxedFromIter => {
+			let coll: Boxed<Vec<L>> = leaves.into_iter().collect();
+			{
+				apply_writes!(coll, plan, key, L, expect);
+				if plan.end == DEnd::IntoIter {
+					let got: Vec<(u32, u32)> = coll.into_iter().map(|l| { let t = L::from_inner(LockableIntoInner::into_inner(l)); (t.id, t.ver) }).collect();
+					check_values("into_iter()", plan, &got, &expect, &mut findings);
+				} else {
+					let got: Vec<(u32, u32)> = FlatV::flat(LockableIntoInner::into_inner(coll)).into_iter().map(|x| { let t = L::from_inner(x); (t.id, t.ver) }).collect();
+					check_values("into_inner()", plan, &got, &expect, &mut findings);
+				}
+			}
+		}
+		DKind::OwnedFromIter => {
+			let mut coll: Owned<Vec<L>> = leaves.into_iter().collect();
+			apply_writes!(coll, plan, key, L, expect);
+			if plan.end == DEnd::ExtendThenIntoInner {
+				coll.extend(vec![mk(2000), mk(2001)]);
+				ids.extend([2000, 2001]);
+				expect.extend([(2000, 0), (2001, 0)]);
+				labels.push("c16.extended".into());
+			}
+			if plan.end == DEnd::IntoIter {
+				let got: Vec<(u32, u32)> = coll.into_iter().map(|l| { let t = L::from_inner(LockableIntoInner::into_inner(l)); (t.id, t.ver) }).collect();
+				check_values("into_iter()", plan, &got, &expect, &mut findings);
+			} else {
+				let got: Vec<(u32, u32)> = FlatV::flat(LockableIntoInner::into_inner(coll)).into_iter().map(|x| { let t = L::from_inner(x); (t.id, t.ver) }).collect();
+				check_values("into_inner()", plan, &got, &expect, &mut findings);
+			}
+		}
+		_ => {
+			let mut coll: Retry<Vec<L>> = leaves.into_iter().collect();
+			apply_writes!(coll, plan, key, L, expect);
+			if plan.end == DEnd::ExtendThenIntoInner {
+				coll.extend(vec![mk(2000), mk(2001)]);
+				ids.extend([2000, 2001]);
+				expect.extend([(2000, 0), (2001, 0)]);
+				labels.push("c16.extended".into());
+			}
+			if plan.end == DEnd::IntoIter {
+				let got: Vec<(u32, u32)> = coll.into_iter().map(|l| { let t = L::from_inner(LockableIntoInner::into_inner(l)); (t.id, t.ver) }).collect();
+				check_values("into_iter()", plan, &got, &expect, &mut findings);
+			} else {
+				let got: Vec<(u32, u32)> = FlatV::flat(LockableIntoInner::into_inner(coll)).into_iter().map(|x| { let t = L::from_inner(x); (t.id, t.ver) }).collect();
+				check_values("into_inner()", plan, &got, &expect, &mut findings);
+			}
+		}
+	}
+	drop(key);
+	let counts = table.counts.lock().unwrap().clone();
+	for id in ids {
+		let cnt = counts.get(&id).copied().unwrap_or(0);
+		if cnt != 1 {
+			findings.push(finding(
+				format!("drop-count|{:?}|{:?}", plan.kind, plan.end),
+				format!("value {id} was dropped {cnt} times (leaf {}, container Vec, plan {plan:?})", L::NAME),
+			));
+			break;
+		}
+	}
+	if !plan.writes.is_empty() {
+		labels.push("c16.write_under_lock".into());
+	}
+	DOutcome { findings, labels }
+}
+
 pub fn run_plan(plan: &DPlan) -> DOutcome {
+	if matches!(plan.kind, DKind::BoxedFromIter | DKind::OwnedFromIter | DKind::RetryFromIter) {
+		let (mut out, double_free) = crate::quarantine::with_quarantine(|| match plan.leaf {
+			0 => run_vec_scenario::<Mutex<Tracked>>(plan),
+			1 => run_vec_scenario::<RwLock<Tracked>>(plan),
+			_ => run_vec_scenario::<Poisonable<Mutex<Tracked>>>(plan),
+		});
+		if double_free {
+			out.findings.push(finding(format!("double-free|{:?}|{:?}", plan.kind, plan.end), format!("a heap block was freed twice during the scenario (plan {plan:?})")));
+		}
+		return out;
+	}
 	let (mut out, double_free) = crate::quarantine::with_quarantine(|| match plan.leaf {
 		0 => dispatch_leaf_cont!(plan, Mutex<Tracked>),
 		1 => dispatch_leaf_cont!(plan, RwLock<Tracked>),
